@@ -403,6 +403,53 @@ func c07Monitor(args []string) int {
 		rep.Distinct++
 		rep.Sample(map[string]interface{}{"fen": p.StringFen(), "depth": depth, "config": cfgName})
 	}
+	// deep searches: the depth-indexed tables (late-move pruning thresholds, reductions) are read at depths
+	// that ordinary test searches never reach; tiny endgames get there within a second
+	deepRoots := []string{"8/8/8/4k3/8/8/4P3/4K3 w - - 0 1", "8/8/4k3/8/8/4K3/4P3/8 b - - 0 1", "8/5k2/8/8/8/2K5/1P6/8 w - - 0 1",
+		"8/8/8/8/8/5k2/4p3/4K3 b - - 0 1", "4k3/8/8/3p4/3P4/8/8/4K3 w - - 0 1", "8/2k5/8/2p5/2P5/8/2K5/8 b - - 0 1", "8/8/8/1k6/8/8/1K1N4/8 w - - 0 1"}
+	for i := 0; i < 2+n/40; i++ {
+		fen := deepRoots[rng.Intn(len(deepRoots))]
+		if rng.Bool() {
+			fen = mirrorFen(fen)
+		}
+		p, _ := position.NewPositionFen(fen)
+		if p == nil {
+			continue
+		}
+		for k := rng.Intn(4); k > 0; k-- { // a few random plies away from the listed position
+			cp := *p
+			lm := w.legalMoves(&cp)
+			if len(lm) == 0 {
+				break
+			}
+			p.DoMove(lm[rng.Intn(len(lm))])
+		}
+		p, _ = position.NewPositionFen(p.StringFen())
+		s := &config.Settings.Search
+		*s = savedSearchCfg
+		s.UseBook = false
+		s.TTSize = 16
+		depth := 17 + rng.Intn(16)
+		current = map[string]interface{}{"fen": p.StringFen(), "depth": depth, "config": "default"}
+		setCurrent(current)
+		r, drv, ok := runDepthSearch(p, depth, 5*time.Second) // stopped after 5 s: the deep iterations have run by then
+		rep.Cases++
+		if !ok {
+			rep.Violate("search-hang", current, "no result 30 s after an explicit stop")
+			return rep.Emit()
+		}
+		rep.Stats["deep_searches"]++
+		drv.mu.Lock()
+		reached := len(drv.iterPvs)
+		drv.mu.Unlock()
+		if reached >= 17 {
+			rep.Stats["deep_searches_beyond_depth_16"]++
+		}
+		if r == nil {
+			continue
+		}
+		rep.Stats["deep_searches_completed"]++
+	}
 	rep.Stats["nodes_classified_terminal"] = classified
 	return rep.Emit()
 }
